@@ -186,6 +186,7 @@ def exmod(
         emit_name in frozenset(("sqlalchemy", "sqlalchemy_hybrid", "sqlalchemy_table"))
         and emit_sqlalchemy_submodule
         and not path.isdir(sqlalchemy_mod_dir)
+        and not dry_run
     )
     if make_sqlalchemy_mod:
         extra_modules_to_all = _create_sqlalchemy_mod(
